@@ -29,6 +29,7 @@ type elemCase struct {
 	CacheKind    string   `json:"cache_kind,omitempty"`   // "" none | "mem" harness-implemented | "lib" the library's own
 	ExpectErr    bool     `json:"expect_err,omitempty"`   // every call has to follow an unresolvable reference: each must report an error
 	Differential bool     `json:"differential,omitempty"` // compare with the same call made without a cache (no reference model: ids)
+	Transient    []string `json:"transient,omitempty"`    // documents the loader refuses during the first call only (then the cache is reused)
 }
 
 // rootedBase: the location against which the refs of the element (and of the result) are read.
@@ -112,6 +113,15 @@ func elemCheck(c *Ctx, cs *elemCase, which string) string {
 			eu[base] = eu[ecs.Root]
 		}
 		f := eu.facts(ecs.Root, false)
+		if len(cs.Transient) > 0 && i == 0 {
+			// a passing failure: whatever this call answers, nothing of it may stay in the cache
+			ecs.FailLoads = cs.Transient
+			r := doCall(&ecs, cl, cache, 200000)
+			if r.Panic != "" || r.Budget {
+				report("crash-or-runaway", cl.Elem, r.Panic, cl)
+			}
+			continue
+		}
 		if cs.ExpectErr {
 			f2 := ecs.effectiveUniverse().facts(ecs.Root, false)
 			r := doCall(&ecs, cl, cache, stepBudget(f2))
@@ -593,6 +603,20 @@ func c18Run(c *Ctx) {
 						if _, ok := ptrGet(mustParse(string(b4.Docs[b4.Root])), e); ok && dependsOnAny(ec.universe(), vertex{Loc{b4.Root, e}, KSchema}, whole) {
 							run(ec)
 						}
+					}
+				}
+			}
+			// a passing failure (the root document itself, or the external ones, refused once) and a reused cache:
+			// the next call must answer as if nothing had happened
+			for _, kind := range []string{"mem", "lib"} {
+				for _, e := range schemas {
+					if _, ok := ptrGet(mustParse(string(b.Docs[b.Root])), e); !ok {
+						continue
+					}
+					cl := call{Fn: "ExpandSchemaWithBasePath", Elem: e}
+					run(&elemCase{expCase: expCase{built: *b, Spec: g}, Calls: []call{cl, cl}, CacheKind: kind, Transient: []string{b.Root}})
+					if len(ext) > 0 {
+						run(&elemCase{expCase: expCase{built: *b, Spec: g}, Calls: []call{cl, cl}, CacheKind: kind, Transient: ext})
 					}
 				}
 			}
